@@ -154,7 +154,7 @@ class Assignment(Statement):
         get_deps = self.get_dependency_mapper()
 
         def get_vars(expr):
-            return frozenset(dep.name for dep in get_deps(self.rhs))
+            return frozenset(dep.name for dep in get_deps(expr))
 
         result = get_vars(self.rhs) | get_vars(self.lhs)
 
